@@ -26,13 +26,55 @@ from prompt_toolkit.layout.mouse_handlers import MouseHandlers
 from prompt_toolkit.layout.processors import (AfterInput, BeforeInput, PasswordProcessor,
                                               ShowLeadingWhiteSpaceProcessor,
                                               ShowTrailingWhiteSpaceProcessor, TabsProcessor)
-from prompt_toolkit.layout.screen import Screen, WritePosition
+from prompt_toolkit.layout.screen import Char, Screen, WritePosition
 from prompt_toolkit.output import DummyOutput
 from prompt_toolkit.utils import get_cwidth
 
 ID = "C11"
 DRIVER = "drv_c11"
 PROPS = ["Ptk.Props.C11"]
+LEVEL_TEXT = ("Lean 4 theorems over an executable model of rendering a focused text window (processors' position "
+              "maps, BufferControl content with the trailing blank, get_height_for_line, both scroll algorithms, "
+              "Window._copy_body with wrapping / prefixes / horizontal scroll): after every render, for every "
+              "previous scroll state, the cursor cell is drawn inside the window on the cursor's character and the "
+              "rows are consecutive document lines (width-1 cells); tab / BeforeInput / merged position maps round "
+              "trip and are monotone; tied to /repo on every run by a differential correspondence on the real "
+              "Window(BufferControl) rendered into a Screen (exhaustive small scope + random histories) and by the "
+              "property oracle")
+LEVEL_NOTE = ("trusted: Lean kernel, axioms propext/Classical.choice/Quot.sound only; the hand-written model "
+              "(validated by the correspondence, not proved equal to the Python); window_size / 2 is exact in IEEE "
+              "double for |window_size| < 2^53; wide / zero-width / control characters are correspondence-only")
+RULE = ("exhaustive: every text over {a, newline} (and tab when a TabsProcessor is configured) up to the tier's length bound x content widths 1..4 x heights "
+        "1..3 x wrapping on/off x a fixed list of window configurations (scroll offsets, previous scroll state, line "
+        "prefixes of constant and varying width, numbered margin, Tabs/BeforeInput/AfterInput/Password processors), "
+        "each case rendering ALL cursor positions one after the other through ONE window (scroll state carries "
+        "over); then seeded random histories (1-8 states, lines of length k*w-1, k*w, k*w+1, up to 12 lines, "
+        "widths 1..9, heights 1..5, window size and wrap mode changing between states), a wide / zero-width "
+        "sub-domain and a raw control character sub-domain; a case is non-trivial when some state has to scroll "
+        "(text longer than one window row or more lines than the height)")
+EXHAUSTIVE = True
+EXHAUSTIVE_SCOPE = {
+    "quick": "texts over {a,\\n} len<=5 (len<=6 plain configuration; {a,\\n,\\t} len<=3 with TabsProcessor) x w 1..4 x h 1..3 x "
+             "wrap x 11 configurations, all cursors",
+    "thorough": "texts over {a,\\n} len<=6 (len<=7 for 3 configurations; {a,\\n,\\t} len<=4 with TabsProcessor) x w 1..4 x "
+                "h 1..3 x wrap x 11 configurations, all cursors"}
+TRUSTED = ["harness/c11.py compares, after every Window.write_to_screen: vertical/horizontal/intra-line scroll, the "
+           "content cursor, Screen.cursor_positions[window], render_info.visible_line_to_row_col and _rowcol_to_yx "
+           "(in insertion order) and every cell of the window body",
+           "Ptk/Model/C11.lean is a hand translation of the anchored layout code (correspondence-checked)",
+           "harness/gen_c11.py: get_cwidth / Char.display_mappings tables regenerated from the current tree"]
+ASSUMPTIONS = ["float: window_size / 2 is exact and int() truncates toward zero (|window_size| < 2^53)",
+               "get_line_prefix returns plain text depending on (lineno == 0, wrap_count > 0) in the correspondence; "
+               "theorems: any prefix-width function with width < window width",
+               "no get_vertical_scroll / get_horizontal_scroll callbacks, align = LEFT, no menus / floats",
+               "theorems assume every cell is one column wide (get_cwidth = Char.width = 1)"]
+PARTIAL_SCOPE = ["wide and zero-width characters: correspondence only (known finding: wrapped height estimate ignores "
+                 "early wrapping of wide characters)",
+                 "raw control characters (TAB without TabsProcessor, ^X): drawn 2 cells wide but measured 0 by the "
+                 "scroll code (known finding); with TabsProcessor tabs are covered by the theorems",
+                 "ShowLeading/TrailingWhiteSpaceProcessor, highlight processors (identity maps) not modelled",
+                 "NumberedMargin: only its width is modelled, not the margin text",
+                 "a zero-width character under the cursor is not asserted to have its own cell"]
 
 
 # ------------------------------------------------------------------ real code
@@ -55,6 +97,18 @@ def make_processors(procs):
         else:
             raise ValueError(p)
     return out
+
+
+_APP = None
+
+
+def shared_app():
+    """one Application per process (building one loads all key bindings: ~6 ms); each Rig installs
+    its own Layout, so the window under test is the focused one"""
+    global _APP
+    if _APP is None:
+        _APP = Application(layout=Layout(Window()), input=DummyInput(), output=DummyOutput())
+    return _APP
 
 
 class Rig:
@@ -81,7 +135,9 @@ class Rig:
             allow_scroll_beyond_bottom=bool(case.get("beyond", False)),
             get_line_prefix=glp,
         )
-        self.app = Application(layout=Layout(self.win), input=DummyInput(), output=DummyOutput())
+        self.app = shared_app()
+        self.app.layout = Layout(self.win)
+        self.app.render_counter += 1
         init = case.get("init")
         if init:
             self.win.vertical_scroll, self.win.horizontal_scroll, self.win.vertical_scroll_2 = init
@@ -176,35 +232,21 @@ def model_lines(case):
 # ------------------------------------------------------------------ oracle
 def expected_char(case, text, cur):
     """what the cell under the cursor must show: the character under the cursor, or the blank
-    after the line end (through the configured processors: first tab cell / password mask / visible
-    whitespace)."""
-    c = text[cur] if cur < len(text) and text[cur] != "\n" else None
-    procs = case.get("procs", [])
-    lines = text.split("\n")
-    row = text.count("\n", 0, cur)
-    col = cur - (text.rfind("\n", 0, cur) + 1)
-    line = lines[row]
-    cands = set()
-    if c is None:
-        # blank after the line end -- unless text is appended after the input on this line
-        cands.add(" ")
-        for p in procs:
-            if p[0] == "A" and row == len(lines) - 1 and p[1]:
-                cands = {p[1][0]}
-            if p[0] == "R":
-                cands.add(p[1])
-        return cands
-    cands.add(c)
-    for p in procs:
-        if p[0] == "T" and c == "\t":
-            cands = {p[2]}
-        if p[0] == "P":
-            cands = {p[1]}
-        if p[0] == "L" and c == " " and line[:col + 1].strip(" ") == "":
-            cands.add(p[1])
-        if p[0] == "R" and c == " " and line[col:].strip(" ") == "":
-            cands.add(p[1])
-    return cands
+    after the line end -- seen through the configured processors applied in order (a tab becomes
+    the first tab cell, PasswordProcessor masks what is there, AfterInput text starts where the
+    last line ends); control characters are shown through Char.display_mappings."""
+    ch = text[cur] if cur < len(text) and text[cur] != "\n" else None
+    last_line = "\n" not in text[cur:]
+    for p in case.get("procs", []):
+        if p[0] == "T" and ch == "\t":
+            ch = p[2]
+        elif p[0] == "P" and ch is not None:
+            ch = p[1]
+        elif p[0] == "A" and ch is None and last_line and p[1]:
+            ch = p[1][0]
+    if ch is None:
+        ch = " "
+    return {Char.display_mappings.get(ch, ch)}
 
 
 def sig_class(case, step, text, cur):
@@ -260,7 +302,10 @@ def check_render(rig, step, sc, wp):
     # (3) on the character it addresses
     cell = sc.data_buffer[cp.y][cp.x].char
     exp = expected_char(case, text, cur)
-    if cell not in exp and not (cell[:1] in exp and all(get_cwidth(c) == 0 for c in cell[1:])):
+    under = text[cur] if cur < len(text) else " "
+    if under != "\n" and under != "\t" and get_cwidth(under) == 0 and under not in Char.display_mappings:
+        pass  # a zero-width (combining) character has no cell of its own: not asserted
+    elif cell not in exp and not (cell[:1] in exp and all(get_cwidth(c) == 0 for c in cell[1:])):
         bad("Window._copy_body", f"{mode}, {cls}: cursor not on its character",
             f"cell under the cursor shows {cell!r}, expected one of {sorted(exp)}")
     # (4) the screen row of the cursor belongs to the cursor's document line
@@ -310,6 +355,160 @@ def oracle(case):
                 seen.add(x["signature"])
                 out.append(x)
     return out
+
+# ------------------------------------------------------------------ generators
+ALPHA = ["a", "\n", "\t"]
+CFGS = [
+    {},
+    {"so": [1, 1, 1, 1]},
+    {"prefix": ["> ", ". ", ". "]},
+    {"so": [2, 0, 0, 2], "beyond": True, "init": [3, 5, 2]},
+    {"prefix": [">>", "", "-"], "so": [0, 1, 0, 1]},
+    {"procs": [["T", 4, "|", "."]]},
+    {"procs": [["B", "> "], ["T", 3, "|", "-"]], "so": [1, 0, 1, 0]},
+    {"margin": True, "xpos": 2, "ypos": 1},
+    {"procs": [["T", 2, "|", "-"], ["B", "$"]], "so": [0, 1, 1, 0], "prefix": ["", "", "+"]},
+    {"procs": [["P", "*"], ["A", "<<"]], "init": [1, 1, 1]},
+    {"so": [3, 3, 3, 3], "init": [7, 9, 4], "margin": True, "prefix": [":", ":", ":"]},
+]
+
+
+def extra_width(cfg, nlines=1):
+    pre = cfg.get("prefix")
+    pw = max(get_cwidth(p) for p in pre) if pre else 0
+    mw = max(3, len(str(nlines)) + 1) if cfg.get("margin") else 0
+    return pw + mw
+
+
+def sweep_case(cfg, text, w, h, wrap):
+    n = len(text)
+    tw = w + extra_width(cfg, text.count("\n") + 1)
+    curs = list(range(n + 1)) + [0, n, n // 2]
+    return dict(cfg, steps=[{"text": text, "cur": c, "w": tw, "h": h, "wrap": wrap} for c in curs])
+
+
+def boundary_text(rng, w, alpha):
+    lines = []
+    for _ in range(rng.choice([1, 1, 2, 3, 5, 12])):
+        k = rng.choice([0, 1, 1, 2, 3])
+        ln = max(0, k * w + rng.choice([-1, 0, 0, 1]))
+        if rng.random() < 0.2:
+            ln = rng.randrange(0, 30)
+        lines.append("".join(rng.choice(alpha) for _ in range(ln)))
+    return "\n".join(lines)
+
+
+RAND_CFG_PROCS = [[], [], [["T", 4, "|", "."]], [["T", 1, "|", "."]], [["B", ">> "]], [["B", "> "], ["T", 3, "|", "-"]],
+                  [["T", 8, ">", " "], ["B", "$"]], [["A", "<<"]], [["P", "*"]], [["B", "a"], ["B", "bc"], ["T", 5, "|", "."]],
+                  [["A", "!"], ["T", 4, "|", "."], ["P", "#"]]]
+RAND_PREFIX = [None, None, None, ["> ", ". ", ". "], ["", "", "-"], [">>", "", ""], [">", "..", "+"], ["abc", "abc", "abc"]]
+
+
+def random_case(rng, alpha, tab_always=False):
+    cfg = {"so": [rng.choice([0, 0, 1, 2, 3, 9]) for _ in range(4)],
+           "init": rng.choice([None, None, [rng.randrange(15), rng.randrange(15), rng.randrange(6)]]),
+           "prefix": rng.choice(RAND_PREFIX), "margin": rng.random() < 0.3,
+           "procs": rng.choice(RAND_CFG_PROCS), "beyond": rng.random() < 0.3,
+           "xpos": rng.choice([0, 0, 3]), "ypos": rng.choice([0, 0, 2])}
+    if tab_always and not any(p[0] == "T" for p in cfg["procs"]):
+        cfg["procs"] = cfg["procs"] + [["T", rng.choice([1, 2, 4, 8]), "|", "."]]
+    w = rng.randrange(1, 10)
+    h = rng.randrange(1, 6)
+    wrap = rng.random() < 0.5
+    text = boundary_text(rng, w, alpha)
+    steps = []
+    for _ in range(rng.randrange(1, 9)):
+        r = rng.random()
+        if r < 0.35:
+            text = boundary_text(rng, w, alpha)
+        elif r < 0.45:
+            w = rng.randrange(1, 10)
+        elif r < 0.55:
+            h = rng.randrange(1, 6)
+        elif r < 0.65:
+            wrap = not wrap
+        n = len(text)
+        cur = rng.choice([0, n, rng.randrange(n + 1), rng.randrange(n + 1)])
+        if rng.random() < 0.3 and w > 0 and n:
+            # cursor at an exact multiple of the width inside some line
+            starts = [0] + [i + 1 for i, ch in enumerate(text) if ch == "\n"]
+            s0 = rng.choice(starts)
+            cur = min(n, s0 + w * rng.randrange(0, 4))
+            if "\n" in text[s0:cur]:
+                cur = s0
+        steps.append({"text": text, "cur": cur, "w": w + extra_width(cfg, text.count("\n") + 1), "h": h, "wrap": wrap})
+    cfg["steps"] = steps
+    return cfg
+
+
+def cases(tier, rng):
+    quick = tier == "quick"
+    # exhaustive small scope
+    for ci, cfg in enumerate(CFGS):
+        if quick:
+            maxlen = 4 if ci == 0 else 3
+        else:
+            maxlen = 5 if ci in (0, 1, 2) else 4
+        has_tabs = any(p[0] == "T" for p in cfg.get("procs", []))
+        alpha = ALPHA if has_tabs else ALPHA[:2]
+        if not has_tabs:
+            maxlen += 2
+        for n in range(maxlen + 1):
+            for tup in itertools.product(alpha, repeat=n):
+                text = "".join(tup)
+                for w in range(1, 5):
+                    for h in range(1, 4):
+                        for wrap in (True, False):
+                            yield sweep_case(cfg, text, w, h, wrap)
+    # random histories: width-1 characters (tabs always through a TabsProcessor)
+    for _ in range(1200 if quick else 9000):
+        yield random_case(rng, ["a", "b", "c", " ", "\t"], tab_always=True)
+    # wide / zero-width sub-domain
+    for _ in range(300 if quick else 2500):
+        c = random_case(rng, ["a", "b", " ", "世", "丁", "ｗ", "́", "é", "\t"], tab_always=True)
+        c["sub"] = "wide"
+        yield c
+    # raw control characters (no TabsProcessor guaranteed)
+    for _ in range(150 if quick else 1200):
+        c = random_case(rng, ["a", "b", "\t", "\x01", " ", "\x7f", "\xa0", "\x85"])
+        c["sub"] = "control"
+        yield c
+
+
+def _scrolls(case):
+    for st in case["steps"]:
+        lines = st["text"].split("\n")
+        if len(lines) > st["h"] or any(len(l) + 1 > st["w"] for l in lines):
+            return True
+    return False
+
+
+def nontrivial(case):
+    return _scrolls(case)
+
+
+def sample_view(case):
+    if len(case["steps"]) > 3:
+        return dict(case, steps=case["steps"][:3] + [f"... {len(case['steps'])} states through one window"])
+    return case
+
+
+def distribution(cases):
+    d = {"states": 0, "sub": {}, "wrap": {"on": 0, "off": 0}, "width": {}, "height": {}, "lines": {}, "cfg": {}}
+    for c in cases:
+        d["sub"][c.get("sub", "width-1")] = d["sub"].get(c.get("sub", "width-1"), 0) + 1
+        for k in ("prefix", "margin", "procs", "beyond", "init"):
+            if c.get(k):
+                d["cfg"][k] = d["cfg"].get(k, 0) + 1
+        if any(c.get("so", [0])):
+            d["cfg"]["scroll_offsets"] = d["cfg"].get("scroll_offsets", 0) + 1
+        for st in c["steps"]:
+            d["states"] += 1
+            d["wrap"]["on" if st["wrap"] else "off"] += 1
+            for key, v in (("width", st["w"]), ("height", st["h"]), ("lines", st["text"].count("\n") + 1)):
+                kk = str(v) if v < 10 else "10+"
+                d[key][kk] = d[key].get(kk, 0) + 1
+    return d
 
 
 if __name__ == "__main__":
